@@ -18,7 +18,8 @@ Regimes == {4, 6}
 \* "ss_int": a simple shear handed over as an integer-typed array in the reference frame
 \* "axi_cy" / "axi_ex": diagonal velocity gradients whose extreme principal rate lies on y / x (a diagonal matrix is
 \* the one input on which "eigenvalues = diagonal entries" shortcuts are tempting, and they need not be sorted)
-Flows == {"ss_xz", "ss_yx", "pure_xy", "axi_c", "gen3d", "trace", "tdep", "xdep", "ss_int", "axi_cy", "axi_ex"}
+\* "spinup": a flow that starts from rest (velocity gradient exactly zero at the start of the first update)
+Flows == {"ss_xz", "ss_yx", "pure_xy", "axi_c", "gen3d", "trace", "tdep", "xdep", "ss_int", "axi_cy", "axi_ex", "spinup"}
 Texs == {"random", "clustered", "girdle", "nonuniform", "single"}
 Parts == {1, 5, 20, 100}      \* 100 calls: a fine partition of a short history (total strain 0.05)
 \* (chi = 0.9 is left out: with uniform volumes 1/n every grain sits within 50% of the floor 0.9/n and would be skipped)
@@ -34,8 +35,8 @@ ScaleScens(dummy) == {[kind |-> "scale", fab |-> f, regime |-> r, flow |-> fl, t
 FabSeq == <<"A", "B", "C", "D", "E", "EN">>
 RegSeq == <<4, 6>>
 QSeq == <<"octahedral", "rational", "random">>
-FlowSeq == <<"ss_xz", "ss_yx", "pure_xy", "axi_c", "gen3d", "trace", "tdep", "xdep", "ss_int", "axi_cy", "axi_ex">>
-ASSUME {FlowSeq[k] : k \in 1..11} = Flows /\ {FabSeq[k] : k \in 1..6} = Fabs
+FlowSeq == <<"ss_xz", "ss_yx", "pure_xy", "axi_c", "gen3d", "trace", "tdep", "xdep", "ss_int", "axi_cy", "axi_ex", "spinup">>
+ASSUME {FlowSeq[k] : k \in 1..12} = Flows /\ {FabSeq[k] : k \in 1..6} = Fabs
 \* seeded sample, stratified so that EVERY (frame class, flow, regime) triple of the frame family occurs (fabrics cycle) and
 \* EVERY (fabric, rate factor, coarse / fine partition) triple of the scale family occurs; the other dimensions are drawn by TLC
 Reps == IF K < 100 THEN 1 ELSE K \div 40
@@ -43,13 +44,13 @@ ScenInit == /\ nUpd = 0 /\ strain = 0
             /\ st \in (IF K = 0 THEN FrameScens(0) \cup ScaleScens(0)
                         ELSE {[kind |-> "frame", fab |-> FabSeq[((a + b + c + i) % 6) + 1], regime |-> RegSeq[c], flow |-> FlowSeq[b],
                                tex |-> RandomElement(Texs), part |-> RandomElement(Parts), par |-> RandomElement(ParClasses), n |-> RandomElement(Ns),
-                               q |-> QSeq[a], s |-> RandomElement(SClasses), i |-> i] : a \in 1..3, b \in 1..11, c \in 1..2, i \in 1..Reps}
+                               q |-> QSeq[a], s |-> RandomElement(SClasses), i |-> i] : a \in 1..3, b \in 1..12, c \in 1..2, i \in 1..Reps}
                              \cup
                              \* (the flow is stratified too: for every rate factor k the twelve (fabric, partition) pairs run
-                             \*  through all eleven flow classes - steady, time- and position-dependent - so that no seed can
+                             \*  through all twelve flow classes - steady, time- and position-dependent - so that no seed can
                              \*  leave a (k, flow) pair out)
                              {[kind |-> "scale", fab |-> FabSeq[a], regime |-> RandomElement(Regimes),
-                               flow |-> FlowSeq[((a + 6 * pc + i) % 11) + 1],
+                               flow |-> FlowSeq[((a + 6 * pc + i) % 12) + 1],
                                tex |-> RandomElement(Texs), part |-> IF pc = 1 THEN 100 ELSE RandomElement(Parts \ {100}),
                                par |-> RandomElement(ParClasses), n |-> RandomElement(Ns),
                                k |-> k, i |-> i] : a \in 1..6, k \in Ks, pc \in {0, 1}, i \in 1..Reps})
